@@ -68,6 +68,14 @@ var callAtoms = []string{
 	"f(", ")", "a", ",", "...", " ", "\n", "a,", "[a]", "1",
 }
 
+// JSON-key alphabet: objects in value position whose property names are templates (names
+// that evaluate to null, to an unknown value, to a non-string), so that short strings reach
+// every branch of the evaluation of a JSON object: the scope binds a.x to a null string, E
+// to an unknown one, e to a number.
+var jsonKeyAtoms = []string{
+	"{", "}", "\"a\":", "\"${null}\":", "\"${a.x}\":", "\"${E}\":", "\"${e}\":", "1", "\"x\"", ",", "[", "]", "null",
+}
+
 func concat(a, b []string) []string {
 	out := make([]string, 0, len(a)+len(b))
 	out = append(out, a...)
